@@ -192,29 +192,33 @@ def h_late_set(template: int, k: int) -> bool:
     """A name set that is completed AFTER it was handed to PortSelect (the selection keeps a reference
     to the caller's set): at build time the configuration equals the one built from the complete set,
     so text and files must be equal too."""
-    names = NAMES_C if template >= 5 else (NAMES_P if template in (3, 4) else NAMES_R)
     k = pick(range(1, 3), k - 1)
+    template = pick(range(7), template)
     full = make_cfg(template, (0, 1, 2), plain=True)
-    late = make_cfg(template, (0, 1, 2), plain=True)
-    # rebuild `late` from selections whose sets start incomplete
-    def shrink_then_grow(cfg):
-        grown = []
-        for side in (cfg.provides, cfg.requires):
-            for sel in (side.sts, side.mts):
-                if isinstance(sel.value, set) and len(sel.value) > k:
-                    removed = sorted(sel.value)[k:]
-                    for n in removed:
-                        sel.value.discard(n)
-                    grown.append((sel.value, removed))
-        return grown
-    pending = shrink_then_grow(late)
-    text_before = str(late)                 # rendering the incomplete configuration is legitimate ...
-    for target, removed in pending:
-        for n in removed:
-            target.add(n)                   # ... the caller completes its sets afterwards
+    # the same configuration, but every explicit set holds only its first k names while the
+    # selection objects are constructed ...
+    pending = []
+
+    def partial(sel: PortSelect) -> PortSelect:
+        if isinstance(sel.value, set) and len(sel.value) > k:
+            names = sorted(sel.value)
+            start = set(names[:k])
+            pending.append((start, names[k:]))
+            return PortSelect(start)
+        return sel
+
+    try:
+        late = PortsCfg(PortsSemanticsCfg(partial(full.provides.sts), partial(full.provides.mts)),
+                        PortsSemanticsCfg(partial(full.requires.sts), partial(full.requires.mts)))
+    except Exception:  # the partial configuration may be invalid on its own (e.g. equal selections)
+        return True
+    str(late)                                # rendering the incomplete configuration is legitimate
+    for target, rest in pending:
+        for n in rest:
+            target.add(n)                    # ... and the caller completes its sets afterwards
     if late != full:
         return False
-    return text_before is not None and str(late) == str(full) and _build(late, template) == _build(full, template)
+    return str(late) == str(full) and _build(late, template) == _build(full, template)
 
 
 def h_environment(template: int, which: int) -> bool:
